@@ -12,9 +12,10 @@ func init() {
 		Batches: 8, BatchesT: 16, Timeout: 10 * time.Minute, TimeoutT: 60 * time.Minute,
 		MinEvals: 500000,
 		Rule: "(a) case = instance-type table of 1-12 types (tied/arbitrary prices, near-duplicate types differing by one unit in one dimension, mixed preemptible flags) x 20 (thorough 40) containers aimed at one type's boundary per dimension (VCPUs exact/+-1; RAM+keep-cache+reserve at floor(type*95/100) -2..+3 and at the undiscounted size; scratch via tmp mounts, via an image of k or k+-1 full blocks, or both; preemptible same/flipped), each judged by brute force over the table with exact integer arithmetic and a 1-byte indifference band on RAM; plus the exhaustive grid type RAM 0..399 x need 0..449; " +
+			"stream queue-types: the same tables and boundary-aimed containers (one ReserveExtraRAM per table) served by an in-memory API server to the real container.Queue in every state a dispatcher can first meet them in (Queued, Locked/Running under its own token, Locked by another dispatcher; priority 0 or >0; arriving before the first or the second Update; pages of 1-3 or 1000 items), lock/set-error/cancel requests failing independently per round and their responses held back until the first observation: every waiting (Queued/Locked) entry of Entries() must carry the brute-force cheapest adequate type, an unsatisfiable container must never be a waiting entry with any type and must get runtime_status.error when the server accepts it, a satisfiable one must not; " +
 			"distinct = (table size class, outcome and which dimensions were an exact fit / in the band / error, ties among cheapest adequate, image class, preemptible, #adequate types capped at 3). " +
-			"(b) case = queue snapshot of 1-8 containers (Queued/Locked/running, 1-3 instance types, priorities from 1-4 levels incl. ties and 0) x pool state (idle/booting per type, at-quota flag possibly raised by an asynchronous quota error after the k-th Create, Create result per type and a global create budget, booting workers that become idle between two pool calls; StartContainer succeeds iff an idle worker of the type exists at that moment), one real runQueue() pass judged from the pool/queue call log; " +
-			"non-trivial = at least one ordered pair of waiting Locked containers with distinct priorities; distinct = (#types, #waiting Locked, ties, at-quota, successful/failed starts, creates, unlocks, boot completions that fired)",
+			"(b) case = queue snapshot of 1-8 containers (Queued/Locked/running, 1-3 instance types, priorities from 1-4 levels incl. ties and 0) x pool state (idle/booting per type, at-quota flag possibly raised by an asynchronous quota error after the k-th Create, Create result per type and a global create budget, booting workers that become idle between two pool calls; StartContainer succeeds iff an idle worker of the type exists at that moment; waiting Locked containers whose Lock call from the previous pass - the real lockContainer() against a slow queue - has applied the state change but has not returned yet), one real runQueue() pass judged from the pool/queue call log; " +
+			"non-trivial = at least one ordered pair of waiting Locked containers with distinct priorities; distinct = (#types, #waiting Locked, ties, at-quota, successful/failed starts, creates, unlocks, boot completions that fired, lock calls in flight)",
 		Assume: []string{
 			"(a) values stay below 2^50 so that neither the code's nor the oracle's int64 arithmetic overflows; prices are finite and non-negative",
 			"(a) the space for loading an image is the documented heuristic: (manifest size - 80)/42 full 64 MiB blocks, buffered once in the tmp space (need = max(tmp, image) + image); an image reference that is not a bare portable data hash carries no size estimate (0 bytes), as in upstream's TestScratchForDockerImage",
